@@ -10,16 +10,23 @@
 (*   Master._result_cb  : exit code -> target state                        *)
 (* A rank's outcome (ok / raise / sig = killed by a signal, exit code < 0) *)
 (* is chosen in Init.  A request succeeded iff every rank succeeded.       *)
+(* A request may fail in the worker before any rank runs it: it asks for   *)
+(* more ranks than the worker has (_alloc raises), or sending it to its    *)
+(* ranks fails after the ranks were allocated.  It then comes back with an *)
+(* exception and WITHOUT an exit code, holds nothing, and must end FAILED. *)
 (***************************************************************************)
 EXTENDS Integers, Sequences, FiniteSets, TLC
 
 CONSTANTS NRanks,            \* ranks of the worker
-          Reqs, Need,        \* [Reqs -> 1 .. NRanks]
+          Reqs, Need,        \* [Reqs -> number of ranks asked for (may exceed NRanks)]
+          SendFails,         \* requests for which sending the first rank's copy fails
           Outs,              \* [Reqs -> subset of {"ok", "raise", "sig"}]
           DevAggMin,         \* aggregate = smallest rank exit code
           DevAggSignedMax,   \* aggregate = largest rank exit code, sign included
           DevAllocBusy,      \* _alloc hands out busy ranks
-          DevNoDealloc       \* ranks are not given back
+          DevNoDealloc,      \* ranks are not given back
+          DevNoDeallocOnSendFail,  \* a failed send keeps the ranks allocated
+          DevMissingIsDone   \* master: a result without exit code counts as success
 
 Rank == 0 .. NRanks - 1
 Code(o) == IF o = "ok" THEN 0 ELSE IF o = "raise" THEN 1 ELSE -9
@@ -48,6 +55,7 @@ Init ==
 
 Free == {k \in Rank : occ[k] = 0}
 LowestN(S, n) == {i \in S : Cardinality({j \in S : j < i}) < n}
+Oversize(r) == Need[r] > NRanks
 Fits(r) == DevAllocBusy \/ Need[r] <= Cardinality(Free)
 Pick(r) == IF DevAllocBusy THEN LowestN(Rank, Need[r]) ELSE LowestN(Free, Need[r])
 Idx(S, k) == Cardinality({j \in S : j < k})       \* position of rank k in the request
@@ -63,20 +71,35 @@ Place(r) ==
   /\ rq' = [k \in Rank |-> IF k \in S THEN Append(rq[k], <<r, Idx(S, k)>>) ELSE rq[k]]
   /\ st' = [st EXCEPT ![r] = "run"]
 
-\* the puller takes the next request: places it or starts waiting for ranks
+\* the request cannot be run: reported with an exception, without exit code
+Refuse(r) ==
+  /\ mres' = mres \cup {[r |-> r, ec |-> 0, has |-> FALSE]}
+  /\ put' = [put EXCEPT ![r] = @ + 1]
+  /\ st' = [st EXCEPT ![r] = "mres"]
+
+\* ranks are there; send the copies - or fail to, give the ranks back, report
+PlaceOrFail(r) ==
+  IF r \in SendFails
+  THEN /\ Refuse(r) /\ UNCHANGED <<held, rq>>
+       /\ occ' = IF DevNoDeallocOnSendFail
+                 THEN [k \in Rank |-> IF k \in Pick(r) THEN 1 ELSE occ[k]] ELSE occ
+  ELSE Place(r) /\ UNCHANGED <<mres, put>>
+
+\* the puller takes the next request: refuses it, places it or starts waiting
 MTake(r) ==
   /\ cur = "none" /\ tq # <<>> /\ Head(tq) = r /\ tq' = Tail(tq)
-  /\ IF Fits(r) THEN Place(r) /\ UNCHANGED <<cur, evt>>
+  /\ IF Oversize(r) THEN Refuse(r) /\ UNCHANGED <<cur, evt, occ, held, rq>>
+     ELSE IF Fits(r) THEN PlaceOrFail(r) /\ UNCHANGED <<cur, evt>>
      ELSE /\ cur' = r /\ evt' = FALSE /\ st' = [st EXCEPT ![r] = "held"]
-          /\ UNCHANGED <<occ, held, rq>>
-  /\ UNCHANGED <<oc, rres, cache, mres, put, back, ecm, target>>
+          /\ UNCHANGED <<occ, held, rq, mres, put>>
+  /\ UNCHANGED <<oc, rres, cache, back, ecm, target>>
 
 \* ranks were given back: the puller tries again
 MRetry ==
   /\ cur # "none" /\ evt
-  /\ IF Fits(cur) THEN Place(cur) /\ cur' = "none" /\ UNCHANGED evt
-     ELSE evt' = FALSE /\ UNCHANGED <<cur, occ, held, rq, st>>
-  /\ UNCHANGED <<oc, tq, rres, cache, mres, put, back, ecm, target>>
+  /\ IF Fits(cur) THEN PlaceOrFail(cur) /\ cur' = "none" /\ UNCHANGED evt
+     ELSE evt' = FALSE /\ UNCHANGED <<cur, occ, held, rq, st, mres, put>>
+  /\ UNCHANGED <<oc, tq, rres, cache, back, ecm, target>>
 
 RankRun(k) ==
   /\ rq[k] # <<>>
@@ -97,7 +120,7 @@ Collect(r, k) ==
                          ELSE [j \in Rank |-> IF j \in {y.k : y \in c} THEN 0 ELSE occ[j]]
                /\ held' = [held EXCEPT ![r] = {}]
                /\ evt' = TRUE
-               /\ mres' = mres \cup {[r |-> r, ec |-> Agg(c)]}
+               /\ mres' = mres \cup {[r |-> r, ec |-> Agg(c), has |-> TRUE]}
                /\ put' = [put EXCEPT ![r] = @ + 1]
                /\ st' = [st EXCEPT ![r] = "mres"]
           ELSE UNCHANGED <<occ, held, evt, mres, put, st>>
@@ -106,7 +129,9 @@ Collect(r, k) ==
 Result(r) ==
   /\ \E x \in mres : /\ x.r = r /\ mres' = mres \ {x}
                       /\ ecm' = [ecm EXCEPT ![r] = x.ec]
-                      /\ target' = [target EXCEPT ![r] = IF x.ec = 0 THEN "DONE" ELSE "FAILED"]
+                      /\ target' = [target EXCEPT ![r] =
+                             IF (x.has /\ x.ec = 0) \/ (~x.has /\ DevMissingIsDone)
+                             THEN "DONE" ELSE "FAILED"]
   /\ back' = [back EXCEPT ![r] = @ + 1]
   /\ st' = [st EXCEPT ![r] = "out"]
   /\ UNCHANGED <<oc, tq, cur, evt, occ, rq, rres, cache, held, put>>
@@ -122,7 +147,8 @@ Next == \/ \E r \in Reqs : Submit(r) \/ MTake(r) \/ Result(r)
 Spec == Init /\ [][Next]_vars
 
 (* ---- properties ----------------------------------------------------------- *)
-AllOk(r) == \A i \in Rank : i < Need[r] => oc[r][i] = "ok"
+Ran(r)   == ~Oversize(r) /\ r \notin SendFails
+AllOk(r) == Ran(r) /\ \A i \in Rank : i < Need[r] => oc[r][i] = "ok"
 
 TypeOK == /\ \A k \in Rank : occ[k] \in {0, 1}
           /\ cur \in Reqs \cup {"none"}
@@ -130,11 +156,14 @@ TypeOK == /\ \A k \in Rank : occ[k] \in {0, 1}
 InvNoShare    == /\ \A r, s \in Reqs : r # s => held[r] \cap held[s] = {}
                  /\ \A r \in Reqs : held[r] \subseteq Rank
 InvDemandMet  == \A r \in Reqs : st[r] = "run" => Cardinality(held[r]) = Need[r]
+InvRefused    == \A r \in Reqs : ~Ran(r) => held[r] = {} /\ \A k \in Rank : \A i \in 1 .. Len(rq[k]) : rq[k][i][1] # r
 InvOccMatches == \A k \in Rank : (occ[k] = 1) <=> (\E r \in Reqs : k \in held[r])
 InvAllBack    == (\A r \in Reqs : held[r] = {}) => \A k \in Rank : occ[k] = 0
 InvResultOnce == \A r \in Reqs : put[r] <= 1 /\ back[r] <= 1 /\ (st[r] = "out" => put[r] = 1 /\ back[r] = 1)
 \* Outcome over ranks / TargetFromExit
-InvAgg        == \A r \in Reqs : \A x \in mres : x.r = r => ((x.ec = 0) <=> AllOk(r))
+InvAgg        == \A r \in Reqs : \A x \in mres : x.r = r =>
+                    /\ x.has = Ran(r)
+                    /\ (x.has => ((x.ec = 0) <=> AllOk(r)))
 InvTarget     == \A r \in Reqs : st[r] = "out" => ((target[r] = "DONE") <=> AllOk(r))
 InvEvt        == cur = "none" => evt
 =============================================================================
